@@ -80,6 +80,15 @@ func (m *Machine) vndCall(name string, args []Value, caller *frame) Value {
 		}
 		m.nondet = append(m.nondet, ndItem{K: "param", V: uint64(v)})
 		return st.Const(64, uint64(v))
+	case "Input":
+		iname, _ := args[0].(StrV).concrete()
+		v := m.concreteInputs[iname]
+		it := ndItem{K: "input", S: make([]int, len(v))}
+		for i := 0; i < len(v); i++ {
+			it.S[i] = int(v[i])
+		}
+		m.nondet = append(m.nondet, it)
+		return m.strConst(v)
 	case "Assume":
 		m.assume(args[0].(*Term))
 		return nil
